@@ -40,6 +40,33 @@ struct Ctx {
     cid: u64,
     /// > 0: this call took the last handle of its side (dec_* logged); counts its critical sections
     split: u32,
+    /// ids of payloads whose destructor ran inside the current call and were not yet attached to an event
+    drops: Vec<u32>,
+}
+
+/// set by the channel programs: every event carries `dropped`, the payload ids destroyed inside it
+static LOG_DROPS: AtomicBool = AtomicBool::new(false);
+static RUN_ACTIVE: AtomicBool = AtomicBool::new(false);
+
+/// Channel payload with an identity; its destructor is recorded on the event it runs in.
+pub struct DTag(pub u32);
+impl DTag {
+    /// takes the value out of the library's hands without running the destructor
+    fn id(self) -> u32 {
+        let v = self.0;
+        std::mem::forget(self);
+        v
+    }
+}
+impl Drop for DTag {
+    fn drop(&mut self) {
+        if std::thread::panicking() || !RUN_ACTIVE.load(Ordering::SeqCst) {
+            return;
+        }
+        let id = me();
+        let v = self.0;
+        with_rec(|r| r.ctx.entry(id).or_default().drops.push(v));
+    }
 }
 
 #[derive(Default)]
@@ -71,6 +98,7 @@ fn call<R>(op: Value, f: impl FnOnce() -> R) -> (R, usize) {
         c.ev = None;
         c.cid = cid;
         c.split = 0;
+        c.drops.clear();
         c.wakes_out.clear();
     });
     let out = f();
@@ -95,6 +123,13 @@ fn call<R>(op: Value, f: impl FnOnce() -> R) -> (R, usize) {
             }
         };
         r.log[idx]["taken"] = json!(taken);
+        if LOG_DROPS.load(Ordering::SeqCst) {
+            // destructors that ran outside the critical sections of the call
+            let rest = std::mem::take(&mut r.ctx.entry(id).or_default().drops);
+            let mut all: Vec<Value> = r.log[idx].get("dropped").and_then(|d| d.as_array().cloned()).unwrap_or_default();
+            all.extend(rest.into_iter().map(|x| json!(x)));
+            r.log[idx]["dropped"] = json!(all);
+        }
         idx
     });
     (out, idx)
@@ -147,6 +182,9 @@ unsafe impl lock_api::RawMutex for SLock {
             };
             if let Some(mut e) = op {
                 e["wakes"] = json!(wakes);
+                if LOG_DROPS.load(Ordering::SeqCst) {
+                    e["dropped"] = json!(std::mem::take(&mut r.ctx.entry(id).or_default().drops));
+                }
                 let split = r.ctx.entry(id).or_default().split;
                 if split > 0 {
                     // the critical sections after the decrement that took the last handle: the first
@@ -356,14 +394,36 @@ macro_rules! prog_semaphore_impl {
     let k = consts["K"].as_u64().unwrap_or(3) as usize;
     let fair = consts["Fair"].as_bool().unwrap_or(false);
     let init = consts["Init0"].as_u64().unwrap_or(2) as usize;
-    let rounds = consts["Rounds"].as_u64().unwrap_or(2);
+    // optional fixed roles [[permits, gives_up], ...]: one round, no try_acquire; a task that gives up
+    // never parks, the others never give up
+    // (a third kind of role, [n, 2], only calls release(n) once)
+    let releases: Vec<bool> =
+        consts["Roles"].as_array().map(|a| a.iter().map(|r| r[1].as_u64() == Some(2)).collect()).unwrap_or_default();
+    let roles: Option<Vec<(usize, bool)>> = consts["Roles"].as_array().map(|a| {
+        a.iter().map(|r| (r[0].as_u64().unwrap_or(1) as usize, r[1].as_u64().unwrap_or(0) == 1)).collect()
+    });
+    let rounds = if roles.is_some() { 1 } else { consts["Rounds"].as_u64().unwrap_or(2) };
     let s: &'static $ty = Box::leak(Box::new(<$ty>::new(fair, init)));
     let mut hs = Vec::new();
     for t in 1..=k {
+        let role = roles.as_ref().and_then(|r| r.get(t - 1).copied());
+        if releases.get(t - 1).copied().unwrap_or(false) {
+            let n = role.map_or(1, |r| r.0);
+            hs.push(shuttle::thread::spawn(move || {
+                for _ in 0..choice(4) {
+                    shuttle::thread::yield_now();
+                }
+                call(json!({"op": "release", "n": n}), || s.release(n));
+            }));
+            continue;
+        }
         hs.push(shuttle::thread::spawn(move || {
             for _ in 0..rounds {
-                let n = 1 + choice(init as u32) as usize;
-                if choice(4) == 0 {
+                let n = match role {
+                    Some((n, _)) => n,
+                    None => 1 + choice(init as u32) as usize,
+                };
+                if role.is_none() && choice(4) == 0 {
                     let (g, i) = call(json!({"op": "try_acquire", "n": n}), || s.try_acquire(n));
                     set_res(i, json!({"res": if g.is_some() { "some" } else { "none" }}));
                     if let Some(g) = g {
@@ -388,8 +448,19 @@ macro_rules! prog_semaphore_impl {
                         }
                         Poll::Pending => {
                             set_res(i, json!({"res": "pending", "fterm": fut.is_terminated()}));
-                            if choice(5) == 0 {
-                                break;
+                            match role {
+                                Some((_, true)) => {
+                                    for _ in 0..choice(3) {
+                                        shuttle::thread::yield_now();
+                                    }
+                                    break;
+                                }
+                                Some((_, false)) => {}
+                                None => {
+                                    if choice(5) == 0 {
+                                        break;
+                                    }
+                                }
                             }
                             shuttle::thread::park();
                         }
@@ -469,8 +540,8 @@ fn prog_event(consts: &Value) {
     }
 }
 
-type Chan = GenericChannel<SLock, u32, ArrayBuf<u32, [u32; 1]>>;
-type Chan0 = GenericChannel<SLock, u32, ArrayBuf<u32, [u32; 0]>>;
+type Chan = GenericChannel<SLock, DTag, ArrayBuf<DTag, [DTag; 1]>>;
+type Chan0 = GenericChannel<SLock, DTag, ArrayBuf<DTag, [DTag; 0]>>;
 
 macro_rules! prog_mpmc_impl {
     ($name:ident, $ty:ty) => {
@@ -478,6 +549,7 @@ macro_rules! prog_mpmc_impl {
             let np = consts["NS"].as_u64().unwrap_or(2) as usize;
             let nc = consts["NR"].as_u64().unwrap_or(2) as usize;
             let per = consts["PerProducer"].as_u64().unwrap_or(2) as u32;
+            let cap = consts["Cap"].as_u64().unwrap_or(1) as usize;
             let ch: &'static $ty = Box::leak(Box::new(<$ty>::new()));
             let done = Arc::new(std::sync::atomic::AtomicUsize::new(0));
             let mut hs = Vec::new();
@@ -486,7 +558,23 @@ macro_rules! prog_mpmc_impl {
                 hs.push(shuttle::thread::spawn(move || {
                     for j in 0..per {
                         let v = (p as u32 - 1) * per + j + 1;
-                        let (fut, _) = call(json!({"op": "create_send", "s": p, "v": v}), || ch.send(v));
+                        if cap > 0 && choice(3) == 0 {
+                            // the non-blocking API first; a full channel falls back to the send future
+                            use futures_intrusive::channel::TrySendError;
+                            let (r, i) = call(json!({"op": "try_send", "v": v}), || ch.try_send(DTag(v)));
+                            match r {
+                                Ok(()) => {
+                                    set_res(i, json!({"res": "ok", "rv": 0}));
+                                    continue;
+                                }
+                                Err(TrySendError::Closed(x)) => {
+                                    set_res(i, json!({"res": "closed", "rv": x.id()}));
+                                    continue;
+                                }
+                                Err(TrySendError::Full(x)) => set_res(i, json!({"res": "full", "rv": x.id()})),
+                            }
+                        }
+                        let (fut, _) = call(json!({"op": "create_send", "s": p, "v": v}), || ch.send(DTag(v)));
                         let mut fut = Box::pin(fut);
                         loop {
                             let vr = variant();
@@ -499,7 +587,7 @@ macro_rules! prog_mpmc_impl {
                                     break;
                                 }
                                 Poll::Ready(Err(ChannelSendError(x))) => {
-                                    set_res(i, json!({"res": "err", "rv": x, "fterm": fut.is_terminated()}));
+                                    set_res(i, json!({"res": "err", "rv": x.id(), "fterm": fut.is_terminated()}));
                                     break;
                                 }
                                 Poll::Pending => {
@@ -510,7 +598,7 @@ macro_rules! prog_mpmc_impl {
                         }
                         let term = fut.is_terminated();
                         let _ = term;
-                        call(json!({"op": "drop_send", "s": p, "dropped": []}), move || drop_keep(fut));
+                        call(json!({"op": "drop_send", "s": p}), move || drop_keep(fut));
                     }
                     if done.fetch_add(1, Ordering::SeqCst) + 1 == np {
                         let (st, i) = call(json!({"op": "close"}), || ch.close());
@@ -520,6 +608,22 @@ macro_rules! prog_mpmc_impl {
             }
             for c in 1..=nc {
                 hs.push(shuttle::thread::spawn(move || loop {
+                    if choice(3) == 0 {
+                        use futures_intrusive::channel::TryReceiveError;
+                        let (r, i) = call(json!({"op": "try_recv"}), || ch.try_receive());
+                        match r {
+                            Ok(x) => {
+                                set_res(i, json!({"res": "some", "v": x.id()}));
+                                
+                                continue;
+                            }
+                            Err(TryReceiveError::Closed) => {
+                                set_res(i, json!({"res": "closed", "v": 0}));
+                                break;
+                            }
+                            Err(TryReceiveError::Empty) => set_res(i, json!({"res": "empty", "v": 0})),
+                        }
+                    }
                     let (fut, _) = call(json!({"op": "create_recv", "r": c}), || ch.receive());
                     let mut fut = Box::pin(fut);
                     let mut end = false;
@@ -530,7 +634,7 @@ macro_rules! prog_mpmc_impl {
                         let (r, i) = call(json!({"op": "poll_recv", "r": c, "w": vr}), || fut.as_mut().poll(&mut cx));
                         match r {
                             Poll::Ready(Some(x)) => {
-                                set_res(i, json!({"res": "some", "v": x, "fterm": fut.is_terminated()}));
+                                set_res(i, json!({"res": "some", "v": x.id(), "fterm": fut.is_terminated()}));
                                 break;
                             }
                             Poll::Ready(None) => {
@@ -572,14 +676,30 @@ fn prog_mpmc_shared(consts: &Value) {
     let nc = consts["NR"].as_u64().unwrap_or(2) as usize;
     let per = consts["PerProducer"].as_u64().unwrap_or(2) as u32;
     let cap = consts["Cap"].as_u64().unwrap_or(1) as usize;
-    let (tx, rx) = generic_channel::<SLock, u32, FixedHeapBuf<u32>>(cap);
+    let (tx, rx) = generic_channel::<SLock, DTag, FixedHeapBuf<DTag>>(cap);
     let mut hs = Vec::new();
     for p in 1..=np {
         let (txp, _) = call(json!({"op": "clone_sender"}), || tx.clone());
         hs.push(shuttle::thread::spawn(move || {
             for j in 0..per {
                 let v = (p as u32 - 1) * per + j + 1;
-                let (fut, _) = call(json!({"op": "create_send", "s": p, "v": v}), || txp.send(v));
+                if cap > 0 && choice(3) == 0 {
+                    // the non-blocking API first; a full channel falls back to the send future
+                    use futures_intrusive::channel::TrySendError;
+                    let (r, i) = call(json!({"op": "try_send", "v": v}), || txp.try_send(DTag(v)));
+                    match r {
+                        Ok(()) => {
+                            set_res(i, json!({"res": "ok", "rv": 0}));
+                            continue;
+                        }
+                        Err(TrySendError::Closed(x)) => {
+                            set_res(i, json!({"res": "closed", "rv": x.id()}));
+                            continue;
+                        }
+                        Err(TrySendError::Full(x)) => set_res(i, json!({"res": "full", "rv": x.id()})),
+                    }
+                }
+                let (fut, _) = call(json!({"op": "create_send", "s": p, "v": v}), || txp.send(DTag(v)));
                 let mut fut = Box::pin(fut);
                 loop {
                     let vr = variant();
@@ -592,7 +712,7 @@ fn prog_mpmc_shared(consts: &Value) {
                             break;
                         }
                         Poll::Ready(Err(ChannelSendError(x))) => {
-                            set_res(i, json!({"res": "err", "rv": x, "fterm": fut.is_terminated()}));
+                            set_res(i, json!({"res": "err", "rv": x.id(), "fterm": fut.is_terminated()}));
                             break;
                         }
                         Poll::Pending => {
@@ -601,7 +721,7 @@ fn prog_mpmc_shared(consts: &Value) {
                         }
                     }
                 }
-                call(json!({"op": "drop_send", "s": p, "dropped": []}), move || drop_keep(fut));
+                call(json!({"op": "drop_send", "s": p}), move || drop_keep(fut));
             }
             call(json!({"op": "drop_sender"}), move || drop(txp));
         }));
@@ -612,6 +732,22 @@ fn prog_mpmc_shared(consts: &Value) {
             let mut got = 0;
             let mut rxo = Some(rxc);
             loop {
+                if choice(3) == 0 {
+                    use futures_intrusive::channel::TryReceiveError;
+                    let (r, i) = call(json!({"op": "try_recv"}), || rxo.as_ref().unwrap().try_receive());
+                    match r {
+                        Ok(x) => {
+                            set_res(i, json!({"res": "some", "v": x.id()}));
+                            got += 1;
+                            continue;
+                        }
+                        Err(TryReceiveError::Closed) => {
+                            set_res(i, json!({"res": "closed", "v": 0}));
+                            break;
+                        }
+                        Err(TryReceiveError::Empty) => set_res(i, json!({"res": "empty", "v": 0})),
+                    }
+                }
                 let (fut, _) = call(json!({"op": "create_recv", "r": c}), || rxo.as_ref().unwrap().receive());
                 let mut fut = Box::pin(fut);
                 // the future owns a reference of its own: the handle may go away first
@@ -628,7 +764,7 @@ fn prog_mpmc_shared(consts: &Value) {
                     let (r, i) = call(json!({"op": "poll_recv", "r": c, "w": vr}), || fut.as_mut().poll(&mut cx));
                     match r {
                         Poll::Ready(Some(x)) => {
-                            set_res(i, json!({"res": "some", "v": x, "fterm": fut.is_terminated()}));
+                            set_res(i, json!({"res": "some", "v": x.id(), "fterm": fut.is_terminated()}));
                             got += 1;
                             break;
                         }
@@ -770,17 +906,23 @@ macro_rules! prog_oneshot_impl {
                     call(json!({"op": "drop", "r": t}), move || drop_keep(fut));
                 }));
             }
-            hs.push(shuttle::thread::spawn(move || {
-                for v in 1..=2u32 {
-                    if choice(4) == 0 {
-                        let (st, i) = call(json!({"op": "close"}), || ch.close());
-                        set_res(i, json!({"res": if st.is_newly_closed() { "newly" } else { "already" }}));
+            // two senders and a closer race for the one slot
+            for v in 1..=2u32 {
+                hs.push(shuttle::thread::spawn(move || {
+                    if choice(3) == 0 {
+                        shuttle::thread::yield_now();
                     }
                     let (r, i) = call(json!({"op": "send", "v": v}), || ch.send(v));
                     match r {
                         Ok(()) => set_res(i, json!({"res": "ok", "rv": 0})),
                         Err(ChannelSendError(x)) => set_res(i, json!({"res": "err", "rv": x})),
                     }
+                }));
+            }
+            hs.push(shuttle::thread::spawn(move || {
+                if choice(2) == 0 {
+                    let (st, i) = call(json!({"op": "close"}), || ch.close());
+                    set_res(i, json!({"res": if st.is_newly_closed() { "newly" } else { "already" }}));
                 }
             }));
             for h in hs {
@@ -1090,6 +1232,8 @@ fn main() {
             ("timer", _) => prog_timer(&c2),
             _ => panic!("unknown primitive"),
         };
+        LOG_DROPS.store(prim == "mpmc", Ordering::SeqCst);
+        RUN_ACTIVE.store(true, Ordering::SeqCst);
         let res = std::panic::catch_unwind(std::panic::AssertUnwindSafe(|| {
             if pct {
                 let sched = shuttle::scheduler::PctScheduler::new_from_seed(s, 3, 1);
@@ -1098,6 +1242,7 @@ fn main() {
                 shuttle::check_random_with_seed(body, s, 1);
             }
         }));
+        RUN_ACTIVE.store(false, Ordering::SeqCst);
         let failed = res.is_err();
         if failed {
             deadlocks += 1;
